@@ -187,6 +187,13 @@ type compressedPostingIterator struct {
 
 func newCompressedPostingIterator(b []byte, w ngram) *compressedPostingIterator {
 	d, sz := binary.Uvarint(b)
+	if sz <= 0 {
+		// Truncated or overlong varint: a corrupt posting list has no hits.
+		return &compressedPostingIterator{
+			_first: math.MaxUint32,
+			what:   w,
+		}
+	}
 	return &compressedPostingIterator{
 		_first:           uint32(d),
 		blob:             b[sz:],
@@ -212,6 +219,13 @@ func (i *compressedPostingIterator) next(limit uint32) {
 
 	for i._first <= limit && len(i.blob) > 0 {
 		delta, sz := binary.Uvarint(i.blob)
+		if sz <= 0 {
+			// Malformed varint: end the list instead of spinning without
+			// consuming a byte (sz == 0) or slicing out of range (sz < 0).
+			i.blob = nil
+			i._first = math.MaxUint32
+			return
+		}
 		i._first += uint32(delta)
 		i.indexBytesLoaded += sz
 		i.blob = i.blob[sz:]
